@@ -131,7 +131,7 @@ func ScannerHelpers(w *World, rel string) *report.RuleResult {
 		setpos, appended := false, 0
 		deepInstrs(fn, func(in ssa.Instruction) {
 			if c, ok := in.(*ssa.Call); ok {
-				if callee := c.Common().StaticCallee(); callee != nil && callee.Name() == "setTokenPosition" && len(c.Common().Args) == 2 && Expr(c.Common().Args[1]) == tk {
+				if callee := c.Common().StaticCallee(); callee != nil && callee.Name() == "setTokenPosition" && len(c.Common().Args) == 2 && canon(Expr(c.Common().Args[1])) == canon(tk) {
 					setpos = true
 				}
 				if bi, ok := c.Common().Value.(*ssa.Builtin); ok && bi.Name() == "append" {
@@ -145,12 +145,17 @@ func ScannerHelpers(w *World, rel string) *report.RuleResult {
 			// setTokenPosition written out in place: the same stores it makes, for the skipped token
 			posE := "pkg/position.Pool.Get($recv.positionPool)"
 			same := func(field, want string) bool {
-				vs := st[field]
+				var vs []string
+				for k, v := range st {
+					if canon(k) == canon(field) {
+						vs = append(vs, v...)
+					}
+				}
 				if len(vs) == 0 {
 					return false
 				}
 				for _, v := range vs {
-					if v != want {
+					if canon(v) != canon(want) {
 						return false
 					}
 				}
@@ -193,7 +198,12 @@ func ScannerHelpers(w *World, rel string) *report.RuleResult {
 		tk := "pkg/token.Pool.Get($recv.tokenPool)"
 		expect("Lex", fn, st, tk+".Value", "$recv.data[$recv.ts:$recv.te]", "the token text")
 		res.Count("facts", 1)
-		ids := st[tk+".ID"]
+		var ids []string
+		for k, v := range st {
+			if canon(k) == canon(tk+".ID") {
+				ids = append(ids, v...)
+			}
+		}
 		res.Check(len(ids) == 1 && (strings.HasPrefix(ids[0], "phi(") || ids[0] == "local" || strings.Contains(ids[0], "tok")), "Lex/ID", w.Pos(fn.Pos()), w.Name(fn), "the token id is the value of tok", fmt.Sprintf("token id assigned from %v", ids))
 	}
 	// every list stored into a token's FreeFloating field is the token's own list extended, or a
